@@ -568,9 +568,11 @@ def sphdist(ra1, dec1, ra2, dec2, units=["deg", "deg"]):
     dis = 2*np.arcsin(0.5*np.sqrt(dsq))
     w = dsq >= 3.99
     if np.any(w):
-        cross = np.cross(np.array([x1, y1, z1])[w], np.array([x2, y2, z2])[w])
-        crosssq = cross[0]**2 + cross[1]**2 + cross[2]**2
-        dis[w] = np.pi - np.arcsin(np.sqrt(crosssq))
+        # nearly antipodal: use the cross product, element by element
+        crosssq = (
+            (y1*z2 - z1*y2)**2 + (z1*x2 - x1*z2)**2 + (x1*y2 - y1*x2)**2
+        )
+        dis[w] = np.pi - np.arcsin(np.sqrt(crosssq[w]))
 
     if units_out == "deg":
         np.rad2deg(dis, dis)
